@@ -136,7 +136,37 @@ reg('NegativeVolumeIndex', cfg=lambda r, h: ([P(r, h)], [r.choice([1000.0, 100.0
 reg('WeightedAveragePrice', cfg=lambda r, h: ([P(r, h)], []), default=([14], []), idle=lambda ns: ns[0] - 1,
     inds=[('Vwap', lambda ns: ns, 'cv')], rule=lambda v, s, pv: gt(v[0], s['c']), margin=lambda v, s, pv: abs(v[0] - s['c']))
 reg('BuyAndHold', cfg=lambda r, h: ([], []), default=([], []), idle=lambda ns: 0, inds=[], rule=None, margin=None)
-# TripleRsi: stateful rule, checked by correspondence and by the generic C05/C04/C18 relations only
+# TripleRsi: the documented rule looks at the last DownDays RSI readings (window rule: `hist`)
+def _triple_rsi(at, snap, fs, ns):
+    """at(k) -> [rsi, sma] at position pos-k.  Documented: Sell when RSI is above SellAt; Buy when RSI is below BuyAt,
+    the RSI reading is DOWN for the DownDays-th period in a row, the reading DownDays-1 periods ago was below BuySignalAt
+    and the close is above the moving average."""
+    dd = ns[2]
+    rs = [at(k)[0] for k in range(dd - 1, -1, -1)]         # oldest … newest
+    rsi, sma = at(0)
+    if rsi > fs[2]:
+        return S
+    if rsi >= fs[1]:
+        return H
+    if any(not (rs[j] > rs[j + 1]) for j in range(dd - 1)):
+        return H
+    if rs[0] >= fs[0]:
+        return H
+    if snap['c'] <= sma:
+        return H
+    return B
+
+
+def _triple_rsi_margin(at, snap, fs, ns):
+    dd = ns[2]
+    rs = [at(k)[0] for k in range(dd - 1, -1, -1)]
+    rsi, sma = at(0)
+    return min([abs(rsi - fs[2]), abs(rsi - fs[1]), abs(rs[0] - fs[0]), abs(snap['c'] - sma)] +
+               [abs(rs[j] - rs[j + 1]) for j in range(dd - 1)])
+
+
 reg('TripleRsi', cfg=lambda r, h: ((lambda p, sp: [p, max(sp, p + 1), 1 + r.randrange(0, 4)])(P(r, 6), P(r, h)),
                                     [r.choice([60.0, 70.0]), r.choice([30.0, 40.0]), r.choice([50.0, 60.0])]),
-    default=([5, 200, 3], [60.0, 30.0, 50.0]), idle=lambda ns: ns[1] - 1, inds=[], rule=None, margin=None)
+    default=([5, 200, 3], [60.0, 30.0, 50.0]), idle=lambda ns: ns[1] - 1,
+    inds=[('Rsi', lambda ns: [ns[0]], 'c'), ('Sma', lambda ns: [ns[1]], 'c')],
+    hist=lambda ns: ns[2], rule=_triple_rsi, margin=_triple_rsi_margin)
